@@ -254,6 +254,8 @@ def gen_datainfo(rng, depth=2):
             di['unit'] = 'K'
         return di
     if t == 'int':
+        if rng.random() < 0.25:    # 64 bit counters: integers beyond 2**53 are not exactly representable as floats
+            return {'type': 'int', 'min': rng.choice([0, -(1 << 63)]), 'max': rng.choice([(1 << 63) - 1, 1 << 64])}
         lo = rng.choice([-5, 0, -1000000])
         return {'type': 'int', 'min': lo, 'max': lo + rng.choice([3, 10, 2000000])}
     if t == 'scaled':
@@ -294,7 +296,11 @@ def gen_wire(di, rng):
         c = [x for x in c if lo <= x <= hi]
         return rng.choice(c)
     if t == 'int':
-        return rng.choice([di['min'], di['max'], rng.randint(di['min'], di['max'])])
+        c = [di['min'], di['max'], rng.randint(di['min'], di['max'])]
+        if di['max'] > (1 << 53):
+            c += [x for x in ((1 << 53) + 1, (1 << 53) + 3, (1 << 62) + 1, (1 << 63) - 1, (1 << 64) - 1, -(1 << 53) - 1)
+                  if di['min'] <= x <= di['max']]
+        return rng.choice(c)
     if t == 'scaled':
         return rng.choice([di['min'], di['max'], 0, rng.randint(di['min'], di['max'])])
     if t == 'bool':
